@@ -126,6 +126,12 @@ fn main() {
 fn run_case(line: &str, fails: &mut Vec<(String, String)>, effective: &mut Option<String>) -> String {
     let toks: Vec<&str> = line.split(' ').collect();
     match toks.as_slice() {
+        // oracle-only: the inner case is executed and judged, the response is a constant (the Lean driver answers the same)
+        ["BIG", rest @ ..] => {
+            let _ = run_case(&rest.join(" "), fails, effective);
+            *effective = None;
+            "big".into()
+        }
         ["S", ops] => sent::run_sent(ops, "", fails),
         ["S", ops, oracle] => sent::run_sent(ops, oracle, fails),
         ["X", h] => sent::run_x(h, "", fails),
